@@ -179,6 +179,8 @@ def execute_sync(seed, sc, script, chooser):
     for w in "cs":
         with nodes_[w]:
             conns[w] = TLSConnection(socks[w])
+        if sc.get("close_socket") is False:
+            conns[w].closeSocket = False
 
     class _P(nodes.Pair):
         def __init__(self):
